@@ -51,7 +51,7 @@ impl C08 {
             Out::Val(Ok(bi)) => {
                 tr.line("load Ok");
                 ctx.count("mbi:load:Ok");
-                let opts = Opts { debug: false, debug_whole: false };
+                let opts = Opts { debug: false, debug_whole: false, strict_extent: false };
                 let mut ex = Ex { reg: &reg, tr, opts: &opts };
                 ex.mbi(ctx, &bi, mem);
             }
@@ -73,7 +73,7 @@ impl C08 {
             Out::Val(Ok(h)) => {
                 tr.line("hload Ok");
                 ctx.count("hdr:load:Ok");
-                let opts = Opts { debug: false, debug_whole: false };
+                let opts = Opts { debug: false, debug_whole: false, strict_extent: false };
                 exercise_hdr::header(ctx, &reg, tr, &opts, &h, mem);
             }
         }
@@ -362,7 +362,7 @@ impl Driver for C08 {
                 let typ = (sub % 22) as u32;
                 let (t, _) = super::c01::hostile_tag(&mut ctx.rng, typ);
                 let reg = Region::new(ctx.placement, &t);
-                let opts = Opts { debug: false, debug_whole: false };
+                let opts = Opts { debug: false, debug_whole: false, strict_extent: false };
                 exercise::standalone(ctx, &reg, &mut tr, &opts, &t);
                 nontrivial = true;
             }
